@@ -2613,7 +2613,19 @@ impl StorageEngine {
                     }
                     Value::Stream(st) => {
                         let last = st.verif_last_id();
-                        DumpValue::Stream { entries: st.verif_entries(), last_id: (last.millis(), last.seq()) }
+                        let mut groups: Vec<crate::verif::GroupDump> = st.verif_groups().iter().map(|g| {
+                            let ages = g.verif_pending_ages();
+                            crate::verif::GroupDump {
+                                name: g.name.clone(),
+                                state: g.verif_check_consistency().map(|(pending, consumers, last_delivered)| crate::verif::GroupState {
+                                    pending: pending.into_iter().map(|(id, c, n)| { let age = ages.iter().find(|(i, _)| *i == id).map(|(_, a)| *a).unwrap_or(0); (id, c, n, age) }).collect(),
+                                    consumers,
+                                    last_delivered,
+                                }),
+                            }
+                        }).collect();
+                        groups.sort_by(|a, b| a.name.cmp(&b.name));
+                        DumpValue::Stream { entries: st.verif_entries(), last_id: (last.millis(), last.seq()), length_counter: st.len(), last_id_counter: st.verif_last_id_counter(), groups }
                     }
                 };
                 out.push(DumpEntry {
